@@ -5,8 +5,9 @@ definitions, extends chains / multiple extends / bases from enclosing scopes, se
 of one class, arrays, equations over own and sub-component variables, modifications) are sent as
 JSON to the compiled Lean reference `PymocaVerif.Flatten.flattenSrc` (driver `drv_c07`), which
 also renders the Modelica text; the real `pymoca.parser.parse` + `pymoca.tree.flatten` run on
-that text and the two flat models (variables in order with type / prefixes / dimensions /
-attributes / value, equations in order) must be identical.
+that text and the two flat models (variables in order with type / prefixes / dimensions, the
+instance equations — simple and for-equations with computed subscripts — and the initial equations,
+all in order) must be identical.
 Direct oracle: `a05.oracle_c07` — the leaf set, types, prefixes, dimensions and the renamed
 equations of every instance computed by a path-directed walk of the description, independent of
 the Lean model (which is environment-passing).
@@ -22,11 +23,14 @@ RULE = ("a case is one generated library + target class; hierarchies up to depth
         "non-trivial = the reference flat model has a leaf at depth >= 2 (a component of class type) or an "
         "inherited leaf, and at least one equation; distinct = distinct library description")
 TRUSTED = ["the reference semantics PymocaVerif.Flatten agrees with the Modelica specification on the subset "
-           "(no redeclare, inner/outer, imports, connectors; lexical lookup without inherited local classes)",
+           "(no redeclare, inner/outer, imports, connectors; lookup through own and inherited local classes of the "
+           "class and of its enclosing classes, base class names not through the class's own inherited classes)",
            "flat names are compared as dotted strings: component names never contain '.'"]
 ASSUMPTIONS = ["diamond inheritance of one component and redeclaration of an inherited name are not generated "
                "(the reference rejects them as duplicate elements)",
                "type-definition modifications are literals",
+               "for-loop variables (i, j) are never names of components; subscripts nest at most two levels "
+               "(v[i + off[k]]); for-equations contain simple equations over one range lo:hi",
                "libraries touching the open findings C07-F1 / C07-F2 (structural predicate a05.triggers) run in "
                "a separate stream"]
 
@@ -87,6 +91,19 @@ def shape(ctx, lib, target):
         ctx.count("array-leaf")
     if any(it[5] for it in leaves):
         ctx.count("type-definition-leaf")
+    cl = set(insts)
+    if any(e[0] == "for" for c in cl for e in orc.member_eqs(c)):
+        ctx.count("for-equation")
+    if any(orc.member_eqs(c, "ieqs") for c in cl if c != tuple(target.split("."))):
+        ctx.count("initial-equations-below-top")
+    ix = orc.ix
+    for cp, cdef in ix.cls.items():
+        if len(cp) > 1 and cdef["alias"] is None and any(
+                k["type"] not in a05.BUILTIN and k["type"].split(".")[0] not in ix.visible(cp) and any(
+                    k["type"].split(".")[0] in ix.visible(cp[:j]) and k["type"].split(".")[0] not in ix.own(cp[:j])
+                    for j in range(1, len(cp))) for k in cdef["comps"]):
+            ctx.count("local-class-uses-inherited-class")
+            break
     ctx.count("leaves-%s" % ("1-5" if len(leaves) <= 5 else "6-15" if len(leaves) <= 15 else "16+"))
 
 
@@ -136,8 +153,8 @@ def run(ctx):
         ctx.count("corpus")
         ctx.case({"lib": c["lib"], "target": c["target"]}, nontrivial=True)
         check_case(ctx, dict(lib=c["lib"], target=c["target"]), drv, "corpus")
-    n_main = 350 if quick else 6000
-    n_find = 30 if quick else 500
+    n_main = 200 if quick else 3500
+    n_find = 15 if quick else 400
     done_main = done_find = 0
     tries = 0
     while done_main < n_main and tries < 20 * n_main:
@@ -195,8 +212,9 @@ def replay(ctx, payload):
 
 MANIFEST = dict(
     level_text="Lean 4 theorems about an executable reference semantics of instantiation/flattening (leaves of the "
-               "instance tree = flat variables, no duplicates, every instance's equations renamed, type / prefixes / "
-               "dimensions kept, input/output only at the top level; unbounded hierarchies, by induction), tied to "
+               "instance tree = flat variables, no duplicates, every instance's equations and initial equations renamed "
+               "(also inside computed subscripts), type / prefixes / dimensions kept, input/output only at the top "
+               "level, Modelica class lookup through inherited local classes; unbounded hierarchies, by induction), tied to "
                "pymoca's parse + tree.flatten by a per-run differential correspondence on generated libraries and a "
                "direct path-directed oracle on the real code.",
     level_note="Trusted: Lean kernel + standard axioms; the harness; that the reference semantics (2 pages) is the "
